@@ -259,9 +259,7 @@ def run(prog: Program, rep, thorough: bool) -> None:
     if not isinstance(t0, Leaf):
         raise AnalysisError('zero_angle: branching before the loop')
     # distance in feet according to the analysed tables
-    qd = C.mk_quantity(ev2, st, prog, 'Distance', 'Draw', 'Foot')
-    dfeet, _ = ev2.call_value(prog.find_method(qd.cls, 'get_in'), [C.enum_val(prog, 'Foot')], self_val=qd, st=st)
-    D = dfeet.rf
+    D = C.read_raw_in(ev2, prog, 'Distance', 'Draw', 'Foot')
     L = A.sym('L')
     want = {'x': A.fn('cos', L) * D, 'y': A.fn('sin', L) * D}
     found = {}
